@@ -4,13 +4,20 @@
 (*   CallStart{r} (harness)  Dialed{k}  EnqHook{r}  Close{k}  LiveCheck{k,live}  Dequeued{k,r} (before conn.Write) *)
 (*   WriteError{k,r}  Requeued{k,r}  Tick{k}  TickExit{k}  RecvExit{k}                                       *)
 (*   SrvRecv{k,r} SrvReply{k,r} SrvClose{k} (harness server)  CallEnd{r, ok} (harness)                        *)
+(*   SendErr{r} (harness: Send returned the error of ReConnect, i.e. of a dial)                              *)
+(*   SrvStopping (harness, before the listener is closed)  SrvDown (after listener and connections are closed *)
+(*   and a settling pause)  SrvStarting (before the listener is re-opened on the same port)  SrvUp (after it   *)
+(*   is open again and a settling pause): in the two transitional phases a dial may succeed or fail           *)
 (* Silent: the sender's selects, the enqueue/hand-off, successful writes, hand-over (repaired code).        *)
 EXTENDS ClientConn, Json
-VARIABLE l
+VARIABLES l, seen      \* position in the trace; <<k, r>>: the harness server has reported request r as read from connection k
 Trace == ndJsonDeserialize("trace.ndjson")
-tvars == <<vars, l>>
-TraceInit == Init /\ l = 1
-IsEvent(e) == l <= Len(Trace) /\ Trace[l].e = e /\ l' = l + 1
+tvars == <<vars, l, seen>>
+TraceInit == Init /\ l = 1 /\ seen = {}
+IsEvent(e) == /\ l <= Len(Trace) /\ Trace[l].e = e /\ l' = l + 1
+              /\ seen' = (IF e = "SrvRecv" THEN seen \cup {<<Trace[l].k, Trace[l].r>>} ELSE IF e = "Reset" THEN {} ELSE seen)
+\* what the client wrote to connection k while it was open but the server never read: in flight when the server closed
+InFlight(k) == {r \in srvGot[k] : <<k, r>> \notin seen}
 TCallStart == IsEvent("CallStart") /\ CallStart(Trace[l].r)
 \* a dial: by a caller inside ReConnect, or (repaired code) by a sender handing a request over
 TDialed == /\ IsEvent("Dialed") /\ Trace[l].k = nconn + 1
@@ -20,7 +27,9 @@ TEnqHook == /\ IsEvent("EnqHook")
             /\ LET r == Trace[l].r IN
                \/ EnqHook(r)
                \/ /\ cpc[r] = "calling" /\ ~isClosed /\ cpc' = [cpc EXCEPT ![r] = "enq"]
-                  /\ UNCHANGED <<isClosed, cur, nconn, lclosed, pclosed, connDone, spc, sm, rpc, sendQ, failQ, recvq, srvGot, replied, issuedAfterDead, wroteDead, dialHealthy>>
+                  /\ UNCHANGED <<isClosed, cur, nconn, lclosed, pclosed, connDone, spc, sm, rpc, sendQ, failQ, recvq, srvGot, replied, issuedAfterDead, wroteDead, dialHealthy, srvvars, dialvars>>
+\* Send returned a dial error: the endpoint refused the connection, or the caller was queued behind a dial that failed
+TSendErr == IsEvent("SendErr") /\ (ReConnectDialFail(Trace[l].r) \/ ReConnectShareFail(Trace[l].r))
 TClose == IsEvent("Close") /\ (RNotice(Trace[l].k) \/ SClose(Trace[l].k))
 \* the sender's decision (taken under connLock, like Close and Dialed): write, or hand the request over
 TLiveCheck == /\ IsEvent("LiveCheck") /\ SCheck(Trace[l].k)
@@ -41,16 +50,24 @@ TTickExit == IsEvent("TickExit") /\ STick(Trace[l].k) /\ spc'[Trace[l].k] = "exi
 TRecvExit == IsEvent("RecvExit") /\ RSignal(Trace[l].k)
 TSrvRecv == IsEvent("SrvRecv") /\ Trace[l].r \in srvGot[Trace[l].k] /\ UNCHANGED vars
 TSrvReply == IsEvent("SrvReply") /\ Reply(Trace[l].k, Trace[l].r)
-TSrvClose == IsEvent("SrvClose") /\ ServerClose(Trace[l].k)
+TSrvClose == IsEvent("SrvClose") /\ ServerCloseLosing(Trace[l].k, InFlight(Trace[l].k))
 \* the call's outcome: success needs the reply; a timeout is accepted only for a call that raced with a close
 TCallEndOk == IsEvent("CallEnd") /\ Trace[l].ok /\ Trace[l].r \in replied /\ UNCHANGED vars
 TCallEndTimeout == IsEvent("CallEnd") /\ ~Trace[l].ok /\ Trace[l].r \notin issuedAfterDead /\ CallTimeout(Trace[l].r)
+\* (the answer of a call that owes nothing -- it raced with a close -- may be on its way when the caller gives up)
+TCallEndLate == IsEvent("CallEnd") /\ ~Trace[l].ok /\ Trace[l].r \notin issuedAfterDead /\ Trace[l].r \in replied /\ cpc[Trace[l].r] = "done" /\ UNCHANGED vars
+TCallEndFailed == IsEvent("CallEnd") /\ ~Trace[l].ok /\ cpc[Trace[l].r] = "failed" /\ UNCHANGED vars
+TSrvStopping == IsEvent("SrvStopping") /\ ServerStop
+TSrvDown == IsEvent("SrvDown") /\ ServerDownLosing([k \in Conns |-> InFlight(k)])
+TSrvStarting == IsEvent("SrvStarting") /\ ServerStart
+TSrvUp == IsEvent("SrvUp") /\ ServerUp
 TReset == /\ IsEvent("Reset")
           /\ isClosed' = TRUE /\ cur' = 0 /\ nconn' = 0
           /\ lclosed' = [k \in Conns |-> FALSE] /\ pclosed' = [k \in Conns |-> FALSE] /\ connDone' = [k \in Conns |-> 0]
           /\ spc' = [k \in Conns |-> "none"] /\ sm' = [k \in Conns |-> 0] /\ rpc' = [k \in Conns |-> "none"]
           /\ sendQ' = <<>> /\ failQ' = <<>> /\ recvq' = <<>> /\ srvGot' = [k \in Conns |-> {}] /\ replied' = {}
           /\ cpc' = [r \in Reqs |-> "idle"] /\ issuedAfterDead' = {} /\ wroteDead' = FALSE /\ dialHealthy' = FALSE
+          /\ up' = "up" /\ restarts' = 0 /\ lastDialErr' = FALSE /\ sawFail' = [r \in Reqs |-> FALSE] /\ ssaw' = [k \in Conns |-> FALSE]
 \* a ticker wake-up that does not leave (isClosed was false) sends the sender back to the top of its loop
 STickStay(k) == STick(k) /\ spc'[k] = "top"
 TSilent == /\ \/ \E r \in Reqs : Enqueue(r) \/ ReConnectNoDial(r)      \* (ReConnect without a dial leaves no event: it may precede a Close that is recorded before the caller's EnqHook)
@@ -59,9 +76,10 @@ TSilent == /\ \/ \E r \in Reqs : Enqueue(r) \/ ReConnectNoDial(r)      \* (ReCon
                                   \/ (SRequeue(k) /\ spc[k] \in {"handover", "handover2"})
                                   \/ (SRequeue(k) /\ spc[k] = "requeue" /\ l <= Len(Trace) /\ Trace[l].e \in {"LiveCheck", "Dequeued"})
                                   \/ (SRedial(k) /\ nconn' = nconn)
-           /\ UNCHANGED l
+           /\ UNCHANGED <<l, seen>>
 TraceNext == TCallStart \/ TDialed \/ TEnqHook \/ TClose \/ TLiveCheck \/ TDequeued \/ TWriteError \/ TRequeued \/ TTick \/ TTickExit \/ TRecvExit
              \/ TSrvRecv \/ TSrvReply \/ TSrvClose \/ TCallEndOk \/ TCallEndTimeout \/ TReset \/ TSilent
+             \/ TSendErr \/ TCallEndFailed \/ TCallEndLate \/ TSrvStopping \/ TSrvDown \/ TSrvStarting \/ TSrvUp
 TraceSpec == TraceInit /\ [][TraceNext]_tvars
 ASSUME TLCSet(1, 0)
 HighWater == (IF l > TLCGet(1) THEN TLCSet(1, l) ELSE TRUE)
